@@ -244,7 +244,20 @@ class Ctx:
                 qn = pdivexact(num, f)
                 if qn is None: break
                 num, den = qn, qd
-        # monomial content of the denominator
+        # common monomial content of numerator and denominator
+        def content(p_):
+            g = None
+            for m in p_:
+                d = dict(m)
+                g = d if g is None else dict((k, min(e, d[k])) for k, e in g.items() if k in d)
+                if not g: break
+            return g or {}
+        gn, gd = content(num), content(den)
+        common = dict((k, min(e, gd[k])) for k, e in gn.items() if k in gd)
+        if common:
+            cm = tuple(sorted(common.items()))
+            num = dict((_mdiv(m, cm), c) for m, c in num.items())
+            den = dict((_mdiv(m, cm), c) for m, c in den.items())
         return (num, den)
 
     def requal(self, a, b):
@@ -320,7 +333,7 @@ class Ctx:
             # sqrt(q*r) = sqrt(q)*sqrt(r): split off the polynomial of an existing root atom
             # (both factors are non-negative wherever the roots are real)
             for qkey, qk in list(self.polyatoms.items()):
-                if qkey and qkey[0] in ('abs', 'absp'): continue
+                if qkey and qkey[0] in ('abs', 'absp', 'fn'): continue
                 q = dict(qkey)
                 if len(q) < 2 or len(q) > len(p): continue
                 r = pdivexact(p, q)
@@ -396,10 +409,31 @@ class Ctx:
             # sqrt(v.v) reached through different expressions is one atom
             xr = self.rat(n.args[0])
             return self.rdiv(self.sqrt_poly(xr[0]), self.sqrt_poly(xr[1]))
+        # transcendental atoms are keyed by the *value* of their arguments (canonical rational form),
+        # so that sin(1*a) and sin(a) are one atom
+        try:
+            argkeys = tuple((tuple(sorted(r[0].items())), tuple(sorted(r[1].items()))) for r in (self.rat(a) for a in n.args))
+        except NotPoly:
+            argkeys = None
+        def fatom(nm):
+            if argkeys is None:
+                return self.key(T.call(nm, list(n.args), n.ty))
+            kk = ('fn', nm) + argkeys
+            v = self.polyatoms.get(kk)
+            if v is None:
+                v = -(len(self.polyatoms) + 1)
+                self.polyatoms[kk] = v
+                self.atom_nodes[v] = T.call(nm, list(n.args), n.ty)
+            return v
+        k = fatom(name)
+        if name in ('sin', 'cos', 'tan', 'atan', 'asin') and argkeys is not None and len(n.args) == 1:
+            # odd / even symmetry and f(0)
+            r0 = self.rat(n.args[0])
+            if not r0[0]:
+                return (pconst(1), one) if name == 'cos' else ({}, one)
         if name == 'sin':
             # sin(t)^2 -> 1 - cos(t)^2
-            c = T.call('cos', list(n.args), n.ty)
-            ck = self.key(c)
+            ck = fatom('cos')
             if k not in self.rules:
                 self.rules[k] = psub(one, ppow(patom(ck), 2))
             return (patom(k), one)
